@@ -25,9 +25,11 @@ ClientDelivers(src, anyPort, firstSeen) ==
     [] src = "port" -> anyPort /\ ~firstSeen
     [] OTHER -> FALSE
 
-DgramCases == {[kind |-> "dgram", side |-> s, src |-> r, anyPort |-> a, firstSeen |-> f, proto |-> p] :
-                 s \in Sides, r \in Srcs, a \in BOOLEAN, f \in BOOLEAN, p \in {"rtp", "rtcp"}}
-ValidDgram == {c \in DgramCases : (c.side = "server" => ~c.anyPort)}
+\* wild (server side): the server's sockets are wildcard dual-stack ones, on which an IPv4 peer
+\* shows up as an IPv4-mapped IPv6 address
+DgramCases == {[kind |-> "dgram", side |-> s, src |-> r, anyPort |-> a, firstSeen |-> f, proto |-> p, wild |-> w] :
+                 s \in Sides, r \in Srcs, a \in BOOLEAN, f \in BOOLEAN, p \in {"rtp", "rtcp"}, w \in BOOLEAN}
+ValidDgram == {c \in DgramCases : (c.side = "server" => ~c.anyPort) /\ (c.wild => c.side = "server")}
 \* early: the other connection already presented the session id (a harmless OPTIONS, answered)
 \* while the session was being set up, before it started to stream
 StealCases == {[kind |-> "steal", how |-> h, state |-> st, method |-> m, early |-> e] :
